@@ -18,6 +18,7 @@ func init() {
 	vk.Register("C11", "alias", runC11)
 	vk.Register("C12", "lisexh", runC12Seq)
 	vk.Register("C12", "lisrand", runC12Seq)
+	vk.Register("C12", "lisbig", runC12Seq)
 	vk.Register("C12", "lcsexh", runC12LCS)
 	vk.Register("C12", "lcsrand", runC12LCS)
 	vk.Register("C17", "exh", runC17)
@@ -536,12 +537,12 @@ func genLCSCase(t *rapid.T) LCSCase {
 		if rapid.Bool().Draw(t, "blockSwap") {
 			a, b = b, a
 		}
-		return LCSCase{As: a, Bs: b}
+		return LCSCase{As: a, Bs: b, Lay: rapid.SampledFrom([]int{0, 1, 2, 3}).Draw(t, "layout")}
 	}
 	k := rapid.IntRange(1, 5).Draw(t, "alphabet")
 	maxLen := rapid.SampledFrom([]int{12, 60, 200, 200}).Draw(t, "maxLen")
 	a, b := genPair(t, k, maxLen)
-	c := LCSCase{As: a, Bs: b}
+	c := LCSCase{As: a, Bs: b, Lay: rapid.SampledFrom([]int{0, 0, 1, 2, 3}).Draw(t, "layout")}
 	if rapid.IntRange(0, 2).Draw(t, "fold") == 0 {
 		// element = 2*letter + case bit
 		c.Fold = true
@@ -571,7 +572,7 @@ func TestC12LCSExhaustive(t *testing.T) {
 			n, dec := sp.level(s)
 			if !e.level(2*n, func(i int) (LCSCase, bool) {
 				a, b, ok := dec(i / 2)
-				return LCSCase{As: a, Bs: b, Fold: i%2 == 1}, ok
+				return LCSCase{As: a, Bs: b, Fold: i%2 == 1, Lay: (i / 2) % 4}, ok
 			}) {
 				break
 			}
@@ -680,6 +681,59 @@ func genSeqCase(t *rapid.T) SeqCase {
 func TestC12LISRand(t *testing.T) {
 	h := vk.Start(t, "C12", "lisrand")
 	vk.Rapid(h, t, genSeqCase, runC12Seq)
+}
+
+// genBigSeq builds inputs of tens of thousands of elements out of a few
+// arithmetic runs, so that the optimum itself has more than 2^15 / 2^16
+// elements (index arithmetic in the tails table) and later runs land below
+// the current best tail (the binary-search path).
+func genBigSeq(t *rapid.T) SeqCase {
+	c := SeqCase{Cmp: rapid.SampledFrom([]string{"nat", "nat", "rev", "half", "extreme"}).Draw(t, "cmp")}
+	edge := func(label string) int {
+		base := rapid.SampledFrom([]int{1 << 15, 1 << 16, 1 << 16, 1 << 17, 40000, 50000, 70000, 100000}).Draw(t, label)
+		return base + rapid.IntRange(-3, 40).Draw(t, label+"Off")
+	}
+	dir := rapid.SampledFrom([]int{1, 1, 1, -1}).Draw(t, "dir")
+	if c.Cmp == "rev" {
+		dir = -dir
+	}
+	scale := 1
+	if c.Cmp == "half" {
+		scale = 2
+	}
+	total := 0
+	lo, hi := 0, 0
+	add := func(start, step, n int) {
+		c.Segs = append(c.Segs, [3]int{start * scale, step * scale, n})
+		end := start + step*(n-1)
+		if total == 0 {
+			lo, hi = min(start, end), max(start, end)
+		} else {
+			lo, hi = min(lo, start, end), max(hi, start, end)
+		}
+		total += n
+	}
+	add(0, dir*rapid.SampledFrom([]int{1, 2, 2, 3}).Draw(t, "step0"), edge("len0"))
+	for k := rapid.IntRange(0, 3).Draw(t, "more"); k > 0 && total < 260000; k-- {
+		start := rapid.IntRange(lo-2, hi+2).Draw(t, "start")
+		step := dir * rapid.SampledFrom([]int{0, 1, 1, 2, -1}).Draw(t, "step")
+		var n int
+		switch rapid.IntRange(0, 3).Draw(t, "lenKind") {
+		case 0:
+			n = rapid.IntRange(1, 50).Draw(t, "short")
+		case 1:
+			n = rapid.IntRange(1000, 30000).Draw(t, "mid")
+		default:
+			n = edge("len")
+		}
+		add(start, step, min(n, 280000-total))
+	}
+	return c
+}
+
+func TestC12LISBig(t *testing.T) {
+	h := vk.Start(t, "C12", "lisbig")
+	vk.Rapid(h, t, genBigSeq, runC12Seq)
 }
 
 func TestC12LISExhaustive(t *testing.T) {
